@@ -192,10 +192,24 @@ def run_case(ctx, h, nedits, lines=None, reals=None):
                     mname = x.name + '_' if keyword.iskeyword(x.name) else x.name
                     emit(f'removeop {ci} {opnum[mname]}', compare=(n_ == len(gone) - 1))
             elif k < .38 and len(c.eStructuralFeatures):
-                how = rng.choice(['remove', 'remove', 'pop', 'del', 'clear'])
+                how = rng.choice(['remove', 'remove', 'pop', 'del', 'clear', 'replace'])
                 cur = list(c.eStructuralFeatures)
                 f = rng.choice(cur)
                 gone = [f]
+                if how == 'replace':
+                    # `features[i] = g` with g named like the feature it replaces (another type, another default): the old
+                    # one is gone with its holders, the new one is a feature like any other
+                    if isinstance(f, E.EAttribute):
+                        nf = E.EAttribute(f.name, E.EInt, default_value=7)
+                        declared[f.name] = 7
+                    else:
+                        nf = E.EReference(f.name, rng.choice(classes))
+                    c.eStructuralFeatures[cur.index(f)] = nf
+                    log.append(f'{c.name}.replace-in-place {f.name}')
+                    removed.add(f.name)
+                    emit(f'removefeat {ci} {f.name[1:]}', compare=False)
+                    emit(f'addfeat {ci} {f.name[1:]}')
+                    continue
                 if how == 'remove':
                     c.eStructuralFeatures.remove(f)
                 elif how == 'pop':
